@@ -347,10 +347,15 @@ def icg_part(ctx, fails, datasets=None):
         if rc is None:
             continue
         icg_dataset(ctx, fails, ds, rc)
+    if len(ORACLE_SETS[1]) > max(2, len(ORACLE_SETS[0]) // 10):
+        ctx.broken_ties.append('oracle: the saturated logistic fits missed the cell means on %d of %d data sets' % (len(ORACLE_SETS[1]), len(ORACLE_SETS[0])))
 
 
 def _pl(ds):
     return {'part': 'icg', 'dataset': {k: ds[k] for k in ('K', 'mode', 'rows', 'coding', 'index', 'seed')}}
+
+
+ORACLE_SETS = [set(), set()]      # data sets run, data sets with a case whose GLM oracle validation failed
 
 
 def icg_dataset(ctx, fails, ds, rc):
@@ -393,6 +398,17 @@ def icg_dataset(ctx, fails, ds, rc):
         what0 = 'K=%d, n=%d rows, plan %r (%s, index range)' % (K, n, list(plan), coding)
         if not out['ok']:
             fails.append((n, 'IterativeCondGFormula.fit.raises', 'fit raised %s: %s on %s' % (out['err'], out['msg'], what0), payload))
+            continue
+        # (c) oracle first: "a cell-saturated logistic fit returns the cell means of the response it was given" is validated on
+        # every regression of every case.  Where statsmodels itself fails numerically (rank-deficient design + separated
+        # cells: overflow in IRLS, a cell of mean 1/2 fitted as 1.0) the sequential models did not converge to their MLE and
+        # the case is outside the property's quantifier: it is counted, not judged.  a broken tie is raised when
+        # that happens on more than a tenth of the data sets (a change to how zEpid calls the GLM would show up there).
+        ORACLE_SETS[0].add(ds['seed'])
+        ow = [validate_glm(ctx, rec, K, plan) for rec in out['steps']]
+        if any(not (w <= 1e-6) for w in ow):
+            ORACLE_SETS[1].add(ds['seed'])
+            ctx.count('icg: case not judged, statsmodels did not reach the saturated MLE (worst cell error %.2g)' % max(ow))
             continue
         # (b) the property itself: implementation vs Coq-evaluated specification
         if not close(out['value'], spec, TOL_FIT):
